@@ -782,4 +782,4 @@ V("C20-revert-structure-reset", "C20", ["C20.R1"], [(SPEC, "            structur
 CAST = "formulaic/utils/cast.py"
 V("C02-ascolumns-shift", "C02", ["C02.R9"], [(CAST, "    return {column_names[i]: data[:, i] for i in range(data.shape[1])}\n\n\n@as_columns.register\n@propagate_metadata\ndef _(data: scipy.sparse.csc_matrix)", "    return {column_names[i]: data[:, i - 1] for i in range(data.shape[1])}\n\n\n@as_columns.register\n@propagate_metadata\ndef _(data: scipy.sparse.csc_matrix)")])
 V("C02-format-reduced-always", "C02", ["C02.R9"], [("formulaic/materializers/types/factor_values.py", "self.format_reduced if self.reduced and self.format_reduced else self.format", "self.format_reduced if self.format_reduced else self.format")])
-V("C01-nested-uses-root-parser", "C01", ["C01.R7"], [(FORMULA, 'parser=self._parser if key == "root" else self._nested_parser,', "parser=self._parser,")])
+V("C01-nested-uses-root-parser", "C01", ["C01.R7"], [(FORMULA, 'parser=(self._parser if key == "root" else self._nested_parser),', "parser=self._parser,")])
